@@ -362,13 +362,15 @@ structure ProofD where
 deriving Repr, DecidableEq
 
 /-- `ProofD.wellFormed`: mandatory fields present, every index refers to an existing base, no
-    index is both disclosed and hidden, the secret key is hidden, range proofs sit on hidden
-    attributes and are non-nil. -/
+    disclosed value is negative and longer than `Lm` bits (the hash that replaces an oversized
+    value is over its magnitude only), no index is both disclosed and hidden, the secret key is
+    hidden, range proofs sit on hidden attributes and are non-nil. -/
 def ProofD.wellFormed (pk : PublicKey) (p : ProofD) : Bool :=
   p.c.isSome && p.a.isSome && p.eResponse.isSome && p.vResponse.isSome &&
   (p.aResponses.get 0).isSome &&
   p.aResponses.all (fun kv => kv.2.isSome && decide (0 ≤ kv.1) && decide (kv.1 < pk.r.length)) &&
   p.aDisclosed.all (fun kv => kv.2.isSome && decide (0 ≤ kv.1) && decide (kv.1 < pk.r.length) &&
+    kv.2.all (fun a => !(decide (a < 0) && decide (bitLen a > pk.params.Lm))) &&
     !p.aResponses.has kv.1) &&
   (p.rangeProofs.getD []).all (fun kv => p.aResponses.has kv.1 && kv.2.all (·.isSome))
 
